@@ -348,6 +348,13 @@ def run_shards(module, shard_args, timeout, hashseed='0', extra_env=None,
                 continue
             ef.close()
             running.remove(ent)
+            # the shard ran in its own session: whatever it left behind
+            # (e.g. pool workers respawned by a pool's maintenance thread)
+            # goes with it
+            try:
+                os.killpg(p.pid, 9)
+            except OSError:
+                pass
             res = None
             try:
                 with open(out) as f:
